@@ -28,6 +28,7 @@ import (
 	"go.sia.tech/core/gateway"
 	proto4 "go.sia.tech/core/rhp/v4"
 	"go.sia.tech/core/types"
+	"go.sia.tech/coreutils"
 	"go.sia.tech/coreutils/chain"
 	rhp4 "go.sia.tech/coreutils/rhp/v4"
 	"go.sia.tech/coreutils/rhp/v4/siamux"
@@ -107,6 +108,7 @@ func Run(r *vh.Run) {
 		{"churn", r.Pick(6, 200), scenChurn, false},
 		{"rejects", r.Pick(5, 80), scenRejects, false},
 		{"matrix", r.Pick(20, 60), scenMatrix, true},
+		{"syncclose", r.Pick(4, 40), scenSyncClose, false},
 		{"caps", r.Pick(6, 120), scenCaps, false},
 		{"capsout", r.Pick(2, 30), scenCapsOut, false},
 		{"shutdown", r.Pick(14, 252), scenShutdown, false},
@@ -1083,6 +1085,113 @@ func scenMatrix(name string, rng *vh.RNG, r *vh.Run) {
 		r.Add(tc)
 	}
 	if tc := teardownCase(name, events, srv.s.VerifID(), srv.s.VerifTG(), tags); tc != nil {
+		r.Add(tc)
+	}
+}
+
+// scenSyncClose: Close while a sync round is handing downloaded blocks to the chain manager.  The
+// node under test connects to a peer that is ahead; its syncLoop starts a round (parallelSync),
+// whose ingestion goroutine calls AddBlocks / AddValidatedV2Blocks of the (gated) chain manager.
+// Close must not return while such a call is in progress, must return once the manager returns,
+// and nothing of the closed syncer may call into the manager afterwards.
+func scenSyncClose(name string, rng *vh.RNG, r *vh.Run) {
+	idx := 0
+	fmt.Sscanf(name[len("syncclose"):], "%d", &idx)
+	hold := idx%2 == 0 // even: the manager call is held while Close is called; odd: Close at a random moment of the round
+	nBlocks := 8 + rng.Intn(30)
+	closeAfter := time.Duration(rng.Intn(4000)) * time.Microsecond
+	c := &vh.Case{Name: name, Tags: []string{"scen:syncclose", fmt.Sprintf("syncclose-hold:%v", hold)},
+		Info: map[string]any{"hold": hold, "blocks": nBlocks, "close_after_us": closeAfter.Microseconds()}}
+	defer func() { r.Add(c) }()
+	threadgroup.VerifStart()
+	ahead, err := newNode("127.0.0.1", "", nil, false)
+	if err != nil {
+		orc(c, "setup", "peer: %v", err)
+		return
+	}
+	for i := 0; i < nBlocks; i++ {
+		b, ok := coreutils.MineBlock(ahead.cm, types.VoidAddress, 10*time.Second)
+		if !ok {
+			orc(c, "setup", "mining failed")
+			return
+		}
+		if err := ahead.cm.AddBlocks([]types.Block{b}); err != nil {
+			orc(c, "setup", "mined block rejected: %v", err)
+			return
+		}
+	}
+	srv, err := newNode("127.0.0.1", "", nil, true, syncer.WithSyncInterval(20*time.Millisecond), syncer.WithMaxSendBlocks(uint64(3+rng.Intn(6))))
+	if err != nil {
+		orc(c, "setup", "server: %v", err)
+		return
+	}
+	srv.gate.setOpen(true)
+	srv.gate.setIngestShut(hold)
+	if _, err := srv.s.Connect(context.Background(), ahead.s.Addr()); err != nil {
+		orc(c, "setup", "connect: %v", err)
+		return
+	}
+	// wait until the round hands a batch to the manager
+	deadline := time.Now().Add(settleDeadline)
+	for {
+		if _, entered := srv.gate.ingestNow(); entered > 0 {
+			break
+		}
+		if time.Now().After(deadline) {
+			orc(c, "setup", "no sync round reached the chain manager within %v", settleDeadline)
+			srv.gate.setIngestShut(false)
+			closeWithin(func() { srv.s.Close() }, closeDeadline)
+			closeWithin(func() { ahead.s.Close() }, closeDeadline)
+			threadgroup.VerifStop()
+			return
+		}
+		time.Sleep(time.Millisecond)
+	}
+	if !hold {
+		time.Sleep(closeAfter)
+	}
+	closeDone := make(chan struct{})
+	go func() {
+		srv.s.Close()
+		if inside, _ := srv.gate.ingestNow(); inside > 0 {
+			orc(c, "close-returned-with-chain-manager-call-in-progress", "Syncer.Close returned while %d call(s) of a sync round into the chain manager (AddBlocks / AddValidatedV2Blocks) were still in progress", inside)
+		}
+		close(closeDone)
+	}()
+	if hold {
+		// Close has to wait for the held call
+		select {
+		case <-closeDone:
+		case <-time.After(time.Duration(100+rng.Intn(200)) * time.Millisecond):
+		}
+		srv.gate.setIngestShut(false)
+	}
+	select {
+	case <-closeDone:
+	case <-time.After(closeDeadline):
+		orc(c, "syncer-close-hung", "Syncer.Close did not return within %v after the chain manager returned", closeDeadline)
+	}
+	// nothing of the closed syncer calls into the manager afterwards
+	_, enteredAtClose := srv.gate.ingestNow()
+	time.Sleep(300 * time.Millisecond)
+	if inside, entered := srv.gate.ingestNow(); entered > enteredAtClose || inside > 0 {
+		orc(c, "calls-into-chain-manager-after-close", "%d call(s) into the chain manager began after Syncer.Close had returned (%d still in progress)", entered-enteredAtClose, inside)
+	}
+	select {
+	case <-srv.run:
+	case <-time.After(settleDeadline):
+		orc(c, "run-not-returned", "Syncer.Run has not returned %v after Close returned", settleDeadline)
+	}
+	closeWithin(func() { ahead.s.Close() }, closeDeadline)
+	events := threadgroup.VerifStop()
+	c.Nontrivial = true
+	c.Key = fmt.Sprintf("%s/%d", name, len(events))
+	inventory(c)
+	tags := []string{"scen:syncclose"}
+	if tc := teardownCase(name, events, srv.s.VerifID(), srv.s.VerifTG(), tags); tc != nil {
+		r.Add(tc)
+	}
+	for _, tc := range tgCases(name, events, map[int]bool{srv.s.VerifTG(): true}, tags) {
 		r.Add(tc)
 	}
 }
